@@ -1076,7 +1076,10 @@ func mutate(rng *vlib.Rng, s []byte, ends []int) ([]byte, string) {
 			s[i] = small[rng.Intn(len(small))]
 		}
 		return s, "header-field"
-	case 6: // trailing garbage
+	case 6: // trailing garbage (sometimes more than one bufio buffer of it)
+		if rng.Intn(5) == 0 {
+			return append(s, genBytes(rng, rng.Range(3000, 9000), small)...), "append-long"
+		}
 		return append(s, genBytes(rng, rng.Range(1, 6), small)...), "append"
 	case 7: // drop a whole message
 		k := rng.Intn(len(ends))
